@@ -471,7 +471,7 @@ async def run_script(st, backend, uni, script, log_errors=None, keydump=None):
                     res.append("?frame:" + str(fr)[:24])
             lines.append({"a": "Query", "fs": fs, "res": res, "_err": err, "_path": "ws", "_raw": False, "_skel": None, "_conc": None, "_sid": sid})
         elif kind == "fquery":
-            # a REQ's stored answer during which the engine fails transiently: the k-th fetch of rows raises "database is locked"
+            # a REQ's stored answer during which the engine fails transiently: the fetch after k delivered rows raises "database is locked"
             # (SQL: aiosqlite's cursor; on LMDB the query runs undisturbed)
             fs, k = op[1], op[2]
             conc = [uni.conc_filter(f) for f in fs]
@@ -481,6 +481,7 @@ async def run_script(st, backend, uni, script, log_errors=None, keydump=None):
                 import aiosqlite
 
                 count = [0]
+                fired = []
                 saved = {}
 
                 def faulty(name):
@@ -488,10 +489,14 @@ async def run_script(st, backend, uni, script, log_errors=None, keydump=None):
                     saved[name] = orig
 
                     async def fn(self_, *a, **kw):
-                        count[0] += 1
-                        if count[0] == k:
+                        # the fetch that follows the delivery of at least k event rows fails (once)
+                        if count[0] >= k and not fired:
+                            fired.append(1)
                             raise sqlite3.OperationalError("database is locked")
-                        return await orig(self_, *a, **kw)
+                        rows = await orig(self_, *a, **kw)
+                        got = [rows] if name == "fetchone" and rows is not None else (rows or []) if name != "fetchone" else []
+                        count[0] += sum(1 for r in got if len(r) == 7)
+                        return rows
                     return fn
                 for name in ("fetchmany", "fetchone", "fetchall"):
                     setattr(aiosqlite.Cursor, name, faulty(name))
